@@ -114,6 +114,11 @@ def handleOf : V → Option Nat
   | .obj id => some id
   | _ => none
 
+/-- is the tag OBJ? -/
+def isObjV : V → Bool
+  | .obj _ => true
+  | _ => false
+
 /-- `isPod()`: `(_type & 8) == 0` — everything except STRING(8), ARRAY(9), OBJ(10) -/
 def isPod : V → Bool
   | .str _ => false
@@ -691,7 +696,7 @@ def cloneV : Nat → Heap → V → Except Err (Heap × V)
         | .error e => .error e
         | .ok (h1, items') =>
           let (h2, id') := allocB h1 { isObj := b.isObj, items := items', cap := max items'.length 3, rc := 1 }
-          .ok (h2, mkHandle b.isObj id')
+          .ok (h2, mkHandle (isObjV v) id')      -- the copy keeps the tag of `*this`
 
 /-! ## comparison -/
 
